@@ -33,7 +33,7 @@ def run(ctx):
     for t, v in zip(traces, verdicts):
         if any(s["out_acts"] for s in t["steps"]):
             nact += 1
-        base = {"origin": t["origin"], "events": p_v2judge.events_of(t), "source": srcs.get(t["origin"], t["origin"])}
+        base = {"origin": t["origin"], "events": p_v2judge.events_of(t), "events_full": p_v2judge.full_events_of(t), "source": srcs.get(t["origin"], t["origin"])}
         oc = t["origin"].split(":")[0]
         if v["l1"]:
             i = sorted(v["l1"])[0]
@@ -53,6 +53,11 @@ def run(ctx):
             i = sorted(v["l2c"])[0]
             ctx.violation("shared-action-stopped", "an action shared with a still-running, untouched flow was sent Stop when another sharer ended, at event #%d of %s (origin %s)" % (
                 i, base["events"][:i], t["origin"]), dict(base, step=i, sig={"clause": "L2c", "origin_class": oc}))
+        # L3 is judged where the program is known not to deactivate flows itself (not for the repository's test traces)
+        if v.get("l3") and oc != "test" and "deactivate" not in (srcs.get(t["origin"]) or "deactivate"):
+            i = sorted(v["l3"])[0]
+            ctx.violation("not-restarted", "an activated flow has no instance after event #%d of %s although the flow that activated it is still running (origin %s)" % (
+                i, base["events"][:i], t["origin"]), dict(base, step=i, sig={"clause": "L3", "origin_class": oc}))
     nontrivial = len(set((t["origin"], tuple(p_v2judge.events_of(t))) for t in traces if len(t["steps"]) >= 3))
     return {"level": LEVEL, "coverage": {
         "states": stats["states"] + csm["states"], "transitions": stats["transitions"] + csm["transitions"], "traces_validated_against_impl": len(traces),
